@@ -201,9 +201,9 @@ func init() {
 		a, b := mkDate(e["a"]), mkDate(e["b"])
 		e["before"], e["after"], e["equal"] = a.Before(b), a.After(b), a.Equal(b)
 		sub := a.Sub(b)
-		e["subdays"] = int(sub / (24 * time.Hour))
+		e["subdays"] = clamp32(int(sub / (24 * time.Hour)))
 		e["subrem"] = sub%(24*time.Hour) == 0
-		e["between"] = a.DaysBetween(b)
+		e["between"] = clamp32(a.DaysBetween(b)) // the specification judges differences within +-106751 days only
 		e["azero"] = a.IsZero()
 		return e
 	}
